@@ -55,3 +55,20 @@ Theorem C09_consistent S g flat n st ops i j :
   i <> j /\ (cn_thr st' < (if cn_nonlocal st' then damped S g else S) i j)%Q.
 Proof. exact (consistent S g flat n st ops i j). Qed.
 Print Assumptions C09_consistent.
+
+(* ---- facts read from the CURRENT climate_network.py (regenerated on every
+        run): strict comparison and zeroed diagonal, the index into the sorted
+        similarities, the setters ---- *)
+From PV.Gen Require Import ThresholdK.
+From PV.Proofs Require Import ThresholdGen.
+
+Theorem C09_density_index_is_model rho n : gen_density_index rho n = density_index rho n.
+Proof. exact (gen_density_index_is_model rho n). Qed.
+Print Assumptions C09_density_index_is_model.
+
+Theorem C09_source_facts :
+  gen_adj_strict_and_loop_free = true /\ gen_nonlocal_is_damped_threshold = true /\
+  gen_set_threshold_rebuilds = true /\ gen_set_density_via_threshold = true /\
+  gen_similarity_is_abs_float32 = true.
+Proof. exact gen_threshold_facts. Qed.
+Print Assumptions C09_source_facts.
